@@ -6,6 +6,7 @@ def run(ctx, rep):
     runloop.r07a(ctx, rep)
     runloop.r07b(ctx, rep)
     runloop.r07e(ctx, rep)
+    runloop.r07f(ctx, rep)
     runloop.r_stack_monotone(ctx, rep, "R07d")
     from . import popbalance
     popbalance.r01b(ctx, rep, rule="R07c")
